@@ -8,6 +8,8 @@ unsigned long long h5m_file_mutations(const char *name);
 int h5m_file_is_open(const char *name);
 int h5m_open_ids(const char *name, int include_file_ids);
 void h5m_make_plain_file(const char *name);
+void h5m_make_raw_file(const char *name, long long size);
+long long h5m_file_size(const char *name);
 #ifdef __cplusplus
 }
 #endif
